@@ -391,6 +391,87 @@ fn build_program_once(isa: &Isa, parents: &[usize], kinds: &[usize], base: u32, 
     Ok(Prog { image, entry: base, end_pc, expected_log })
 }
 
+/// Run program number `idx` of the n-node family (forest x call-kind labelling) with all oracles.
+pub fn run_forest_program(ctx: &mut Ctx, fs: &[Vec<usize>], n: usize, idx: u64) {
+    let nk = (KINDS as u64).pow(n as u32);
+    let fi = (idx / nk) as usize;
+    let mut kk = idx % nk;
+    let mut kinds = vec![0usize; n];
+    for k in 0..n {
+        kinds[k] = (kk % KINDS as u64) as usize;
+        kk /= KINDS as u64;
+    }
+    let in_dram = idx % 2 == 1;
+    let base = if in_dram { dom::CODE_DRAM + 0x40 } else { dom::CODE_RAM + 0x40 };
+    let log = if in_dram { dom::DATA_DRAM + 0x200 } else { dom::DATA_RAM + 0x200 };
+    let sp0 = if idx % 4 < 2 { dom::STACK_RAM | 0x3c00_0000 } else { dom::STACK_DRAM | 0xe100_0000 };
+    let prog = build_program(&ctx.isa, &fs[fi], &kinds, base, log);
+    let mut init = Case::new(prog.entry, &[]);
+    init.code_len = 0;
+    init.image = prog.image.clone();
+    init.er = dom::background_regs();
+    init.er[6] = log;
+    init.er[7] = sp0;
+    init.ccr = (idx as u8).wrapping_mul(31);
+    // harness-side call stack: (return pc, sp before the call)
+    let mut stack: Vec<(u32, u32)> = Vec::new();
+    let end_pc = prog.end_pc;
+    let expected_log = prog.expected_log.clone();
+    let mut finished = false;
+    let max_actions = 16 * (n + 2);
+    let before = ctx.st.violations_total;
+    ctx.seq_tag = Some(json!({"oracle": "c05-nesting", "n": n, "idx": idx}));
+    ctx.run_seq(&init, Act::Step, max_actions, &mut |o: &StepObs| {
+        if let Decoded::Impl { row, len, .. } = o.dec {
+            match ROWS[row].sem {
+                Sem::Bsr { .. } | Sem::Jsr(_) => stack.push(((o.pre_pc + len as u32) & M24, o.pre_er[7])),
+                Sem::Rts => match stack.pop() {
+                    Some((ret, sp)) => {
+                        if o.post_pc != ret {
+                            return Next::Fail(format!("RTS resumed at {:06x}, the matching call's next instruction is {:06x}", o.post_pc, ret));
+                        }
+                        if o.post_er[7] != sp {
+                            return Next::Fail(format!("after RTS SP={:08x}, before the matching call it was {:08x}", o.post_er[7], sp));
+                        }
+                    }
+                    None => return Next::Fail("RTS without a matching call".into()),
+                },
+                _ => {}
+            }
+        }
+        if o.post_pc == end_pc {
+            finished = true;
+            if !stack.is_empty() {
+                return Next::Fail("program ended with calls still open".into());
+            }
+            // the marker log must be the pre-order of the forest
+            for (k, &id) in expected_log.iter().enumerate() {
+                let got = o.m.peek(log + k as u32).unwrap_or(0xee);
+                if got != id {
+                    return Next::Fail(format!("marker log[{}] = {:02x}, pre-order of the call forest says {:02x}", k, got, id));
+                }
+            }
+            if o.post_er[6] != log + expected_log.len() as u32 {
+                return Next::Fail("marker count differs from the number of functions".into());
+            }
+            return Next::Stop;
+        }
+        Next::Continue(Act::Step)
+    });
+    ctx.seq_tag = None;
+    if !finished && !ctx.stop && ctx.st.violations_total == before {
+        // lock step ended early without a reported violation: the program did not reach its end
+        let mut c = init.clone();
+        c.patches = crate::hv::sem::Small::new();
+        ctx.st.violations_total += 1;
+        if ctx.st.violations.len() < crate::hv::e1::MAX_VIOLATIONS_KEPT {
+            let mut cj = c.to_json();
+            cj["regen"] = json!({"oracle": "c05-nesting", "n": n, "idx": idx});
+            ctx.st.violations.push(crate::hv::e1::Violation { engine: "e1".into(), unit: ctx.unit.clone(), what: "generated program did not reach its end within the action bound".into(), case: cj, expected: json!(null), actual: json!(null) });
+        }
+    }
+}
+
 fn forest_unit(n: usize) -> Unit {
     let fs = forests(n);
     let nf = fs.len() as u64;
@@ -401,81 +482,17 @@ fn forest_unit(n: usize) -> Unit {
     Unit::new(&format!("nesting/n={}", n), chunks, &dom, move |ctx, chunk| {
         let (lo, hi) = chunk_range(total, chunks, chunk);
         for idx in lo..hi {
-            let fi = (idx / nk) as usize;
-            let mut kk = idx % nk;
-            let mut kinds = vec![0usize; n];
-            for k in 0..n {
-                kinds[k] = (kk % KINDS as u64) as usize;
-                kk /= KINDS as u64;
-            }
-            let in_dram = idx % 2 == 1;
-            let base = if in_dram { dom::CODE_DRAM + 0x40 } else { dom::CODE_RAM + 0x40 };
-            let log = if in_dram { dom::DATA_DRAM + 0x200 } else { dom::DATA_RAM + 0x200 };
-            let sp0 = if idx % 4 < 2 { dom::STACK_RAM | 0x3c00_0000 } else { dom::STACK_DRAM | 0xe100_0000 };
-            let prog = build_program(&ctx.isa, &fs[fi], &kinds, base, log);
-            let mut init = Case::new(prog.entry, &[]);
-            init.code_len = 0;
-            init.image = prog.image.clone();
-            init.er = dom::background_regs();
-            init.er[6] = log;
-            init.er[7] = sp0;
-            init.ccr = (idx as u8).wrapping_mul(31);
-            let ccr0 = init.ccr;
-            // harness-side call stack: (return pc, sp before the call)
-            let mut stack: Vec<(u32, u32)> = Vec::new();
-            let end_pc = prog.end_pc;
-            let expected_log = prog.expected_log.clone();
-            let mut finished = false;
-            let max_actions = 16 * (n + 2);
-            ctx.run_seq(&init, Act::Step, max_actions, &mut |o: &StepObs| {
-                if let Decoded::Impl { row, len, .. } = o.dec {
-                    match ROWS[row].sem {
-                        Sem::Bsr { .. } | Sem::Jsr(_) => stack.push(((o.pre_pc + len as u32) & M24, o.pre_er[7])),
-                        Sem::Rts => match stack.pop() {
-                            Some((ret, sp)) => {
-                                if o.post_pc != ret {
-                                    return Next::Fail(format!("RTS resumed at {:06x}, the matching call's next instruction is {:06x}", o.post_pc, ret));
-                                }
-                                if o.post_er[7] != sp {
-                                    return Next::Fail(format!("after RTS SP={:08x}, before the matching call it was {:08x}", o.post_er[7], sp));
-                                }
-                            }
-                            None => return Next::Fail("RTS without a matching call".into()),
-                        },
-                        _ => {}
-                    }
-                }
-                if o.post_pc == end_pc {
-                    finished = true;
-                    if !stack.is_empty() {
-                        return Next::Fail("program ended with calls still open".into());
-                    }
-                    // the marker log must be the pre-order of the forest
-                    for (k, &id) in expected_log.iter().enumerate() {
-                        let got = o.m.peek(log + k as u32).unwrap_or(0xee);
-                        if got != id {
-                            return Next::Fail(format!("marker log[{}] = {:02x}, pre-order of the call forest says {:02x}", k, got, id));
-                        }
-                    }
-                    if o.post_er[6] != log + expected_log.len() as u32 {
-                        return Next::Fail("marker count differs from the number of functions".into());
-                    }
-                    return Next::Stop;
-                }
-                Next::Continue(Act::Step)
-            });
-            if !finished && !ctx.stop && ctx.st.violations_total == 0 {
-                // lock step ended early without a reported violation: the program did not reach its end
-                let mut c = init.clone();
-                c.patches = crate::hv::sem::Small::new();
-                ctx.st.violations_total += 1;
-                if ctx.st.violations.len() < crate::hv::e1::MAX_VIOLATIONS_KEPT {
-                    ctx.st.violations.push(crate::hv::e1::Violation { engine: "e1".into(), unit: ctx.unit.clone(), what: "generated program did not reach its end within the action bound".into(), case: c.to_json(), expected: json!(null), actual: json!(null) });
-                }
-            }
-            let _ = ccr0;
+            run_forest_program(ctx, &fs, n, idx);
         }
     })
+}
+
+/// replay of a nesting counterexample with the unit's own oracles
+pub fn replay_nesting(ctx: &mut Ctx, regen: &serde_json::Value) {
+    let n = regen["n"].as_u64().unwrap_or(1) as usize;
+    let idx = regen["idx"].as_u64().unwrap_or(0);
+    let fs = forests(n);
+    run_forest_program(ctx, &fs, n, idx);
 }
 
 pub fn c05(tier: Tier, _seed: u64) -> Prop {
